@@ -13,7 +13,8 @@ PROPS = {
     'C08': ['UNIONCONTRIB', 'PRODUCT', 'WORKLIST', 'INIT', 'COLLECTALL'],
     'C09': ['DISPATCH', 'ACDUAL', 'MEMO', 'HASHEQ', 'ORDTOTAL'],
     'C10': ['UNIONCONTRIB', 'PRODUCT', 'PAIRFIELD', 'FINCHK', 'WORKLIST', 'COW'],
-    'C11': ['COW'],
+    'C11': ['COW', 'CLEARALL', 'HASHCONS'],
+    'C12': ['COW', 'HASHCONS', 'ITER', 'CLEARALL'],
     'C14': ['KIND', 'COW'],
     'C19': ['KIND', 'SIMMAP', 'DISPATCH'],
     'C20': ['INIT', 'FALLOFF', 'PAIRFIELD', 'COPYALL', 'FRAMERESET'],
@@ -40,6 +41,7 @@ FILTER = {
     ('C08', 'UNIONCONTRIB'): r'bdd_', ('C08', 'PRODUCT'): r'bdd_', ('C08', 'WORKLIST'): r'bdd_', ('C08', 'INIT'): r'bdd_|mtbdd|symbolic',
     ('C10', 'UNIONCONTRIB'): r'explicit_finite', ('C10', 'PRODUCT'): r'explicit_finite', ('C10', 'WORKLIST'): r'explicit_finite',
     ('C10', 'COW'): r'explicit_finite', ('C10', 'FINCHK'): r'explicit_finite',
+    ('C12', 'COW'): r'explicit_tree',
     ('C14', 'COW'): r'explicit_tree', ('C14', 'KIND'): r'explicit_tree|explicit_finite|bdd_',
     ('C19', 'DISPATCH'): r'aut_base\.hh|explicit_tree_incl\.cc', ('C19', 'KIND'): r'explicit_tree',
 }
